@@ -183,7 +183,22 @@ func DrawSingle(r *rng.R, ts []Template, tplIdx int, bindIdx int) *Entry {
 	if b2 == b1 {
 		b2 = b1%3 + 1
 	}
-	probe := t.Gen(rng.New(wseed), rng.New(r.U64()), b1)
+	pseed := r.U64()
+	probe := t.Gen(rng.New(wseed), rng.New(pseed), b1)
+	if b1 >= 10 {
+		// a two- or three-digit batch of an operand that is large already (image-sized Conv inputs, 16 500-wide rows)
+		// would be tens of megabytes per tensor and gigabytes per recorded world: such templates keep small batches
+		for _, o := range probe.Operands {
+			if o.V != nil && len(o.V.Bits) > 1<<16 {
+				b1 = 1 + int(pseed%3)
+				if b2 == b1 {
+					b2 = b1%3 + 1
+				}
+				probe = t.Gen(rng.New(wseed), rng.New(pseed), b1)
+				break
+			}
+		}
+	}
 	binds := make([]string, len(probe.Operands))
 	// bindIdx enumerates (operand, mode) pairs; -1 = natural bindings; -2 = random for every operand
 	frozenBatch := false
